@@ -59,6 +59,38 @@ Verdict propDamaged(Ctx& c) {
   return feed(c, t, "damaged");
 }
 
+// Calls of term / predicate functions whose bodies fail (or succeed) at run time, inside small well-typed contexts.
+// Run-time errors raised by nodes of an inlined body are the only reports whose position is not produced from the
+// text being analysed, so they get a generator of their own.
+Verdict propCalls(Ctx& c) {
+  static const std::vector<std::string> sets = {"X1", "X2", "C1", "{D1}", "X1\\X1", "X1\xE2\x88\xAAX1", "Pr1(S1)", "Pr2(S1)", "red(S2)", "{D1,D1}", "\xE2\x88\x85", "{1,2}", "{D2}", "Z"};
+  static const std::vector<std::string> elems = {"D1", "D2", "1", "debool(X2)", "debool(X1)", "card(X1)"};
+  auto call = [&](int depth, auto&& self) -> std::string {
+    const std::string a = depth > 0 && c.chance(1, 3) ? self(depth - 1, self) : c.oneof(sets);
+    switch (c.ipick(0, 5)) {
+      case 0: return "F2[" + a + "]";
+      case 1: return "{F2[" + a + "]}";
+      case 2: return "F3[" + a + "]";
+      case 3: return "F1[" + a + ", " + c.oneof(sets) + "]";
+      case 4: return "F3[F3[" + a + "]]";
+      default: return "bool(F2[" + a + "])";
+    }
+  };
+  std::string t;
+  switch (c.ipick(0, 7)) {
+    case 0: t = call(2, call); break;
+    case 1: t = "P2[" + call(1, call) + ", " + c.oneof(elems) + "]"; break;
+    case 2: t = "card(" + call(1, call) + ")" + (c.coin() ? "=1" : ""); break;
+    case 3: t = "\xE2\x88\x80x\xE2\x88\x88" + c.oneof(sets) + " P2[" + c.oneof(sets) + ", x]"; break;
+    case 4: t = "D{x\xE2\x88\x88" + c.oneof(sets) + "|P2[" + call(1, call) + ", x]}"; break;
+    case 5: t = c.oneof(sets) + "\xE2\x88\xAA" + call(1, call); break;
+    case 6: t = "P1[F2[" + c.oneof(sets) + "]]" + (c.coin() ? " & P2[" + c.oneof(sets) + ", " + c.oneof(elems) + "]" : ""); break;
+    default: t = "\xC2\xAC" "P2[" + c.oneof(sets) + ", F2[" + c.oneof(sets) + "]]"; break;
+  }
+  if (c.chance(1, 4)) t = std::string(static_cast<size_t>(c.ipick(1, 3)), ' ') + t;
+  return feed(c, t, "function-calls");
+}
+
 Verdict propDeep(Ctx& c) {
   const int depth = c.chance(1, 4) ? c.ipick(200, 2000) : c.ipick(5, 200);
   const int shape = c.ipick(0, 7);
@@ -87,6 +119,7 @@ int main(int argc, char** argv) {
   std::vector<pbt::Prop> props;
   props.push_back({"grammatical", propGrammatical, 1200, 20000, false, false, "grammatical texts with corner literals (indices 0 / 32768 / 70000, integers beyond 32 and 64 bits)"});
   props.push_back({"damaged", propDamaged, 1500, 25000, false, false, "grammatical texts truncated, with bytes deleted / transposed or stray tokens spliced in"});
+  props.push_back({"function_calls", propCalls, 600, 10000, false, false, "calls (also nested) of term / predicate functions whose inlined bodies fail or succeed at run time"});
   props.push_back({"deep_nesting", propDeep, 120, 2000, false, false, "nesting depth up to 2000 in eight shapes"});
   return pbt::main(argc, argv, "C04", props);
 }
